@@ -11,6 +11,9 @@ Inductive op14 :=
 | OPutNC (name : string) (v : node)
 | OClear (name : string)
 | OPutScalar (v : node)
+(* Lookup(path) | Clear(name); cp := Copy(); put zz1 on cp at path; put zz2 on the document at path:
+   the document afterwards and (as the returned node) the copy afterwards — a copy is an independent value *)
+| OCopyIndep (name : string)
 | OFieldSpec (fs : fieldspec) (ck : option kind) (ct : tag) (sv : setval14)
 | OFsSlice (l : list fieldspec) (ck : option kind) (ct : tag) (sv : setval14)
 (* filters applied to the node Lookup(path) returns:  rn.Pipe(Lookup(path...), F) *)
@@ -18,6 +21,7 @@ Inductive op14 :=
 | OElemSet (keys values : list string) (element : option node)
 | OElemAppend (els : list node)
 | OFieldMatch (name : string) (value : option string) (create : option node)
+| OFieldMatchRe (name : string) (compiled : option Regex.re)   (* FieldMatcher{Name, StringRegexValue}; the compiled expression *)
 | OFieldClear (name : string) (if_empty : bool)
 | OTeeSet (name : string) (v : node)          (* Tee(SetField(name, v)) *)
 (* kfns.go, applied to the document *)
@@ -185,6 +189,11 @@ Definition run14 (c : case14) : res (node * option node * obs14) :=
       plain (do r <- walk (Some KScalar) ps
                 (fun x => do x' <- set_scalar (Some v) x; Ok (x', x')) d;
       Ok r)
+  | OCopyIndep name =>
+      plain (do r <- clear_at ps name d;
+             do o <- put nonstr ps "zz2" (Scalar TNone SPlain "2") (fst r);
+             do c <- put nonstr ps "zz1" (Scalar TNone SPlain "1") (fst r);
+             Ok (fst o, Some (fst c)))
   | OFieldSpec fs ck ct sv =>
       plain (do d' <- fs_apply_raw ck ct (sv_fn nonstr sv) fs d; Ok (d', None))
   | OFsSlice l ck ct sv =>
@@ -193,6 +202,7 @@ Definition run14 (c : case14) : res (node * option node * obs14) :=
   | OElemSet keys values element => piped (elem_setter nonstr keys values element)
   | OElemAppend els => piped (elem_append els)
   | OFieldMatch name value create => piped (field_matcher nonstr name value create)
+  | OFieldMatchRe name cre => piped (field_matcher_regex nonstr name cre)
   | OFieldClear name ie => piped (field_clearer name ie)
   | OTeeSet name v =>
       do r <- walk None ps (k_tee (k_set_field nonstr name v)) d; Ok (fst r, snd r, ObNone)
